@@ -61,13 +61,13 @@ theorem dash_D_is_leading_define (defs : Defs) (n v : List Char) :
 /-- segmentation is lossless, hence a line none of whose words names an object-like macro is
     emitted unchanged (in particular: identifiers merely *containing* a macro name, and the inside
     of string literals, which are never `word` segments of their own) -/
-theorem line_without_macro_word_unchanged (defs : Defs) (depth : Nat) (s : List Char)
+theorem line_without_macro_word_unchanged (defs : Defs) (depth : Nat) (active : List (List Char)) (s : List Char)
     (h : ∀ w, Seg.word w ∈ segment (s.length + 1) s →
           defs.find w = none ∨ ∃ m, defs.find w = some m ∧ m.fnLike = true) :
-    expandChars defs (depth + 1) s = s := by
+    expandChars defs (depth + 1) active s = s := by
   have key : ∀ segs : List Seg, (∀ w, Seg.word w ∈ segs →
       defs.find w = none ∨ ∃ m, defs.find w = some m ∧ m.fnLike = true) →
-      segs.flatMap (expSeg defs (expandChars defs depth)) = unseg segs := by
+      segs.flatMap (expSeg defs active (expandChars defs depth)) = unseg segs := by
     intro segs
     induction segs with
     | nil => intro _; rfl
@@ -88,13 +88,34 @@ theorem line_without_macro_word_unchanged (defs : Defs) (depth : Nat) (s : List 
 
 /-- string literals and non-identifier characters are copied verbatim (they are never looked up
     in the macro table), whatever the table contains -/
-theorem string_and_punct_verbatim (defs : Defs) (rec : List Char → List Char) (l : List Char) (c : Char) :
-    expSeg defs rec (Seg.str l) = l ∧ expSeg defs rec (Seg.other c) = [c] := ⟨rfl, rfl⟩
+theorem string_and_punct_verbatim (defs : Defs) (active : List (List Char)) (rec : List (List Char) → List Char → List Char)
+    (l : List Char) (c : Char) :
+    expSeg defs active rec (Seg.str l) = l ∧ expSeg defs active rec (Seg.other c) = [c] := ⟨rfl, rfl⟩
 
 /-- a word that names an object-like macro is replaced by the expansion of the macro's body -/
-theorem macro_word_replaced (defs : Defs) (rec : List Char → List Char) (w : List Char) (m : Macro)
+theorem macro_word_replaced (defs : Defs) (active : List (List Char)) (rec : List (List Char) → List Char → List Char)
+    (w : List Char) (m : Macro) (h : defs.find w = some m) (hf : m.fnLike = false) (ha : active.contains w = false) :
+    expSeg defs active rec (Seg.word w) = rec (w :: active) m.body := by
+  have ha' : w ∉ active := by
+    intro hm
+    have : active.contains w = true := List.contains_iff_mem.mpr hm
+    rw [ha] at this; exact Bool.noConfusion this
+  simp [expSeg, h, hf, ha']
+
+/-- … unless that macro is being expanded already: inside its own expansion (directly, or through a cycle
+    A -> B -> A) the name is left as it stands, so expansion always ends -/
+theorem macro_inside_own_expansion_kept (defs : Defs) (active : List (List Char)) (rec : List (List Char) → List Char → List Char)
+    (w : List Char) (h : active.contains w = true) :
+    expSeg defs active rec (Seg.word w) = w := by
+  have h' : w ∈ active := List.contains_iff_mem.mp h
+  cases hf : defs.find w with
+  | none => simp [expSeg, hf]
+  | some m => by_cases hm : m.fnLike = true <;> simp [expSeg, hf, hm, h']
+
+/-- a top-level occurrence is never "inside its own expansion": the line's own words are looked up with no macro active -/
+theorem top_level_word_replaced (defs : Defs) (w : List Char) (m : Macro) (rec : List (List Char) → List Char → List Char)
     (h : defs.find w = some m) (hf : m.fnLike = false) :
-    expSeg defs rec (Seg.word w) = rec m.body := by
+    expSeg defs [] rec (Seg.word w) = rec [w] m.body := by
   simp [expSeg, h, hf]
 
 /-! non-vacuity: a concrete nested source on which the theorem's two sides are computed -/
